@@ -1,0 +1,35 @@
+//go:build verif
+
+// C12 contracts for package util (comment-only; read by /verif/vc).
+package util
+
+// SplitBytes partitions its input: the chunks are consecutive sub-slices of bytes, each between
+// 1 and splitLen bytes long, all but the last exactly splitLen, and together they cover bytes
+// from its first to its last byte. Empty input gives no chunks. (Stated without multiplication:
+// first chunk starts at the start, each next chunk starts where the previous one ends, the last
+// one ends at the end.)
+
+//@ func SplitBytes
+//@ requires split-positive: splitLen > 0 && splitLen <= 1<<30
+//@ ensures empty-in-empty-out: len(bytes) == 0 ==> len(result) == 0
+//@ ensures nonempty-in-nonempty-out: len(bytes) > 0 ==> len(result) > 0
+//@ ensures same-array: forall(0, len(result), func(k int) bool { return sameArray(result[k], bytes) })
+//@ ensures starts-at-start: len(result) > 0 ==> offsetOf(result[0]) == offsetOf(bytes)
+//@ ensures consecutive: forall(0, len(result)-1, func(k int) bool { return offsetOf(result[k+1]) == offsetOf(result[k]) + len(result[k]) })
+//@ ensures chunk-bounds: forall(0, len(result), func(k int) bool { return 1 <= len(result[k]) && len(result[k]) <= splitLen })
+//@ ensures all-but-last-full: forall(0, len(result)-1, func(k int) bool { return len(result[k]) == splitLen })
+//@ ensures ends-at-end: len(result) > 0 ==> offsetOf(result[len(result)-1]) + len(result[len(result)-1]) == offsetOf(bytes) + len(bytes)
+//@ ensures within-input: forall(0, len(result), func(k int) bool { return offsetOf(bytes) <= offsetOf(result[k]) && offsetOf(result[k]) + len(result[k]) <= offsetOf(bytes) + len(bytes) })
+//@ ensures fresh-result: fresh(result)
+//@ ensures input-unchanged: forall(0, len(bytes), func(p int) bool { return bytes[p] == old(bytes[p]) })
+//@ loop i: progress: 0 <= i && i < numBytes + splitLen && numBytes == len(bytes) && (len(splitBytes) == 0 ==> i == 0) && (len(splitBytes) > 0 ==> i >= splitLen)
+//@ loop i: fresh-so-far: fresh(splitBytes)
+//@ loop i: done-consecutive: len(splitBytes) == 0 || forall(0, len(splitBytes)-1, func(k int) bool { return offsetOf(splitBytes[k+1]) == offsetOf(splitBytes[k]) + splitLen })
+//@ loop i: done-same-array: len(splitBytes) == 0 || forall(0, len(splitBytes), func(k int) bool { return sameArray(splitBytes[k], bytes) })
+//@ loop i: done-full: len(splitBytes) == 0 || forall(0, len(splitBytes), func(k int) bool { return k+1 < len(splitBytes) ==> len(splitBytes[k]) == splitLen })
+//@ loop i: done-first: len(splitBytes) > 0 ==> offsetOf(splitBytes[0]) == offsetOf(bytes)
+//@ loop i: done-bounds: len(splitBytes) == 0 || forall(0, len(splitBytes), func(k int) bool { return 1 <= len(splitBytes[k]) && len(splitBytes[k]) <= splitLen })
+//@ loop i: done-within: len(splitBytes) == 0 || forall(0, len(splitBytes), func(k int) bool { return offsetOf(bytes) <= offsetOf(splitBytes[k]) && offsetOf(splitBytes[k]) + len(splitBytes[k]) <= offsetOf(bytes) + numBytes })
+//@ loop i: done-last: len(splitBytes) > 0 ==> offsetOf(splitBytes[len(splitBytes)-1]) + len(splitBytes[len(splitBytes)-1]) == offsetOf(bytes) + min(i, numBytes)
+//@     && len(splitBytes[len(splitBytes)-1]) == min(i, numBytes) - (i - splitLen)
+//@ end
